@@ -653,6 +653,8 @@ def sqrt_scalar(ctx, x):
     obligation-free assumption x >= 0 only where the caller has established it)."""
     if isinstance(x, S.Cx):
         raise Unsupported('complex sqrt')
+    if isinstance(x, S.SumT):
+        x = S.name_sum(x)       # sqrt of a finite sum: the sum gets a name (see sym.name_sum)
     x = S.num(x)
     if not S.is_z3(x):
         f = S.frac(x)
@@ -1341,8 +1343,8 @@ def np_fft2(ctx, a, s=None, axes=None, norm=None):
     a = arr(ctx, a)
     if any(ctx.branch(S.z(S.eq(d, 0))) for d in a.shape[-2:]):
         raise Raised('ValueError', 'Invalid number of FFT data points (0) specified.')
-    ctx.__dict__.setdefault('ghost_fft_calls', []).append({'fn': 'fft2', 'norm': norm, 'input': a.snapshot()})
     out = A.fresh_array(ctx, 'fft2', a.shape, 'complex')
+    ctx.__dict__.setdefault('ghost_fft_calls', []).append({'fn': 'fft2', 'norm': norm, 'input': a.snapshot(), 'output': out})
     ctx.ghost_last_fft2 = out
     return out
 
@@ -1350,8 +1352,9 @@ def np_fft2(ctx, a, s=None, axes=None, norm=None):
 @lib('numpy.fft.ifft2', 'abstract')
 def np_ifft2(ctx, a, s=None, axes=None, norm=None):
     a = arr(ctx, a)
-    ctx.__dict__.setdefault('ghost_fft_calls', []).append({'fn': 'ifft2', 'norm': norm, 'input': a.snapshot()})
-    return A.fresh_array(ctx, 'ifft2', a.shape, 'complex')
+    out = A.fresh_array(ctx, 'ifft2', a.shape, 'complex')
+    ctx.__dict__.setdefault('ghost_fft_calls', []).append({'fn': 'ifft2', 'norm': norm, 'input': a.snapshot(), 'output': out})
+    return out
 
 
 @lib('math.factorial')
